@@ -87,16 +87,20 @@ theorem recv_inv (idsOf : Nat → List τ) {st st' : LState τ} {k : Nat} (hinv 
     intro hs; rw [hfl']
     cases hd : (st.ctl.env.flags.get k).down <;> cases m <;> simp [Receiver.step, toRecv, hd, hs]
   refine inv_of ?_ ?_
-  · refine ctlInv_flags hinv.1 (by simp) rfl rfl rfl rfl rfl ?_
-    intro n hn
-    by_cases hnk : n = k
-    · subst hnk
-      simp only [Flags.shuttingDown, hflk, Bool.or_eq_true] at hn ⊢
-      rcases hn with hn | hn
-      · exact Or.inl (hmonoD hn)
-      · exact Or.inr (hmonoS hn)
-    · simp only [Flags.shuttingDown, hflj n hnk] at hn ⊢
-      exact hn
+  · refine ctlInv_flags hinv.1 (by simp) rfl rfl rfl rfl rfl ?_ ?_
+    · intro n hn
+      by_cases hnk : n = k
+      · subst hnk
+        simp only [Flags.shuttingDown, hflk, Bool.or_eq_true] at hn ⊢
+        rcases hn with hn | hn
+        · exact Or.inl (hmonoD hn)
+        · exact Or.inr (hmonoS hn)
+      · simp only [Flags.shuttingDown, hflj n hnk] at hn ⊢
+        exact hn
+    · intro m hm
+      rcases keys_set_mem _ _ _ _ hm with hm | hm
+      · exact hinv.1.flagsLt m hm
+      · rw [hm, ← hinv.1.len]; exact hk
   · intro j wj hj
     by_cases hjk : j ≠ k
     · simp only at hj
